@@ -46,6 +46,22 @@ Theorem C13_frames_bounded : forall enc dec PC, pc_ok PC -> aead_len enc ->
 Proof. exact c13_frames. Qed.
 Print Assumptions C13_frames_bounded.
 
+(* reader_frames (the reader's dual of frames_bounded; ANY tampering, no assumption on dec): the bytes
+   the reader took from the transport are exactly the frames it accepted, <len:u16le> ++ ciphertext,
+   in order, followed by its frame buffer (nothing skipped, nothing read twice); what it delivered
+   followed by its payload buffer is exactly the concatenation of the plaintexts of the accepted frames
+   in order; and the i-th accepted frame (i counted from 0) carries a ciphertext of the announced length
+   that decrypts under nonce i to that plaintext - the nonce is the frame index, so a replayed,
+   dropped or reordered genuine frame meets the wrong nonce. *)
+Theorem C13_reader_frames : forall enc dec PC, pc_ok PC -> aead_len enc ->
+  forall ops s, run enc dec (sim_init PC) ops = Ok s ->
+  n_rin (s_net s) = concat (map rawframe (r_got (s_r s))) ++ b_data (r_frame (s_r s)) /\
+  s_delivered s ++ b_data (r_payload (s_r s)) = concat (map plain (r_got (s_r s))) /\
+  (forall i h c p, nth_error (r_got (s_r s)) i = Some (h, c, p) ->
+     dec i c = Some p /\ length c = dec16 h).
+Proof. exact c13_reader_frames. Qed.
+Print Assumptions C13_reader_frames.
+
 (* tamper_detected: whatever the adversary does to the bytes in flight (any functions, at any
    points), if it cannot forge - every ciphertext the reader accepted at position i under nonce i
    decrypts to the i-th payload the writer encrypted ([authentic], the integrity half of H-AEAD) -
